@@ -23,6 +23,7 @@ type verifNC struct {
 	tlsNames map[string]bool
 	dials    *int
 	real     *netceptor.Netceptor // when set, TLS profile lookups go to a real node's profile table
+	slowDial bool                 // a connection attempt takes a while: it ends only when its context is cancelled
 }
 
 func (n *verifNC) NodeID() string                                           { return n.id }
@@ -43,6 +44,10 @@ func (n *verifNC) GetClientTLSConfig(name string, expectedHostName string, t net
 
 func (n *verifNC) DialContext(ctx context.Context, node string, service string, tlscfg *tls.Config) (*netceptor.Conn, error) {
 	*n.dials++
+	if n.slowDial {
+		<-ctx.Done()
+		return nil, ctx.Err()
+	}
 	return nil, fmt.Errorf("no route to node")
 }
 
